@@ -533,7 +533,9 @@ impl<'ast, 'psess, 'c> ModResolver<'ast, 'psess> {
     ) -> Result<Vec<(PathBuf, DirectoryOwnership, Module<'ast>)>, ModuleResolutionError> {
         // Filter nested path, like `#[cfg_attr(feature = "foo", path = "bar.rs")]`.
         let mut path_visitor = visitor::PathVisitor::default();
-        for attr in attrs.iter() {
+        // Only `cfg_attr` can turn into a `path` attribute; another attribute's `path = ".."`
+        // names no module file.
+        for attr in attrs.iter().filter(|attr| attr.has_name(sym::cfg_attr)) {
             if let Some(meta) = attr.meta() {
                 path_visitor.visit_meta_item(&meta)
             }
